@@ -26,6 +26,11 @@ B2 = "x = 1\n"
 C1 = "import pytest\n\n@pytest.fixture\ndef shared():\n    return 0\n\n@pytest.fixture\ndef other():\n    return 0\n\n@pytest.mark.usefixtures(\"shared\", \"only_a\")\ndef test_c(other):\n    pass\n"
 
 
+CONF = f"{D}/conftest.py"
+CONF1 = "import pytest\n\n@pytest.fixture\ndef from_conf():\n    return 1\n\n@pytest.fixture\ndef from_conf2(from_conf):\n    return 2\n"
+CONF2 = "# nothing left\nX = 1\n"
+
+
 def an(path, text, fresh=False):
     return {"op": "analyze_fresh" if fresh else "analyze", "db": 0, "path": path, "text": text}
 
@@ -38,6 +43,13 @@ SCENARIOS = {
     "edit_during_scan": ([an(A, A1, True)], [[an(A, A3)], [an(B, B1, True)], [an(C, C1, True)]]),
     "swap_owner_of_names": ([an(A, A1), an(B, B2)], [[an(A, A2)], [an(B, B1)]]),
     "usage_index_cleanup_vs_record": ([an(A, A1), an(C, C1)], [[an(A, A2)], [an(C, C1)], [an(B, B1, True)]]),
+    # a re-analysis that records nothing (removes the last definitions of its names) overlaps with an analysis of another
+    # file that records some, while a third thread asks the memoising queries; afterwards the queries are asked again
+    "queries_during_overlapping_analyses": (
+        [an(CONF, CONF1), an(A, A1)],
+        [[an(CONF, CONF2)], [an(B, B1, True)],
+         [{"op": "available", "db": 0, "path": A}, {"op": "cycles", "db": 0}, {"op": "available", "db": 0, "path": B}]],
+        [{"op": "available", "db": 0, "path": A, "observe": True}, {"op": "available", "db": 0, "path": B, "observe": True}]),
 }
 
 
@@ -51,10 +63,12 @@ def run(ctx):
     total_distinct = 0
     windows = {}
     try:
-        for name, (setup, threads) in SCENARIOS.items():
+        for name, spec_ in SCENARIOS.items():
+            setup, threads = spec_[0], spec_[1]
+            extra = {"after": spec_[2]} if len(spec_) > 2 else {}
             allowed = {}
             for perm in itertools.permutations(range(len(threads))):
-                r = vh.call(op="sched_scenario", setup=setup, threads=threads, seed=0, count=1, sequential=list(perm))
+                r = vh.call(op="sched_scenario", setup=setup, threads=threads, seed=0, count=1, sequential=list(perm), **extra)
                 for o in r["outcomes"]:
                     allowed[o["index"]] = perm
                     if o["invariants"]:
@@ -66,7 +80,7 @@ def run(ctx):
                 cnt = per if mode == "uniform" else per // 3
                 try:
                     r = vh.call(op="sched_scenario", setup=setup, threads=threads, seed=ctx.seed * 1000003 + hash_str(name) % 1000,
-                                count=cnt, pct=pct, est=120, timeout=1200)
+                                count=cnt, pct=pct, est=120, timeout=1200, **extra)
                 except VHDied as e:
                     if e.returncode == 97:
                         ctx.violation({"kind": "deadlock-under-scheduler", "scenario": name, "mode": mode},
